@@ -173,16 +173,16 @@ Esis == {Zeros(10), <<0, 1, 2, 3, 4, 5, 6, 7, 8, 9>>, <<0, 255, 255, 255, 255, 2
          <<5, 0, 1, 0, 0, 0, 0, 0, 9, 0>>, <<5, 255, 255, 255, 255, 255, 255, 255, 255, 0>>}
 Ips46 == {<<>>, <<192, 168, 0, 1>>, Nh6}
 Rd0 == <<1, <<172, 16, 0, 1, 23, 16>>>>
-EvpnRoutes ==
+EvpnRoutes(lazy) ==
    {<<1, [rd |-> rd, esi |-> e, tag |-> t, label |-> l]>> : rd \in {Rd0, <<0, <<0, 1, 0, 0, 0, 1>>>>}, e \in Esis, t \in {<<0, 0>>, <<0, 100>>, <<65535, 65535>>}, l \in {10, 1048575}}
    \cup {<<2, [rd |-> Rd0, esi |-> e, tag |-> t, mac |-> Mac1, ip |-> ip, labels |-> ls]>> :
             e \in {Zeros(10), <<3>> \o Mac1 \o <<1, 0, 0>>, <<1>> \o Mac1 \o <<0, 7, 0>>}, t \in {<<0, 108>>, <<65535, 65535>>}, ip \in Ips46, ls \in {<<16>>, <<16, 17>>, <<1048575>>}}
    \cup {<<3, [rd |-> rd, tag |-> t, ip |-> ip]>> : rd \in {Rd0, <<2, <<0, 1, 0, 0, 0, 2>>>>}, t \in {<<0, 0>>, <<0, 100>>}, ip \in Ips46 \ {<<>>}}
    \cup {<<4, [rd |-> Rd0, esi |-> e, ip |-> ip]>> : e \in Esis, ip \in Ips46 \ {<<>>}}
 EvpnPool ==
-   {Mp("evpn", TRUE, Nh4, <<e>>) : e \in EvpnRoutes}
-   \cup {Mp("evpn", FALSE, <<>>, <<e>>) : e \in {x \in EvpnRoutes : x[1] \in {3, 4}}}
-   \cup {Mp("evpn", TRUE, Nh4, <<a, b>>) : a, b \in {x \in EvpnRoutes : (x[1] = 1 /\ x[2].esi = Zeros(10) /\ x[2].tag = <<0, 100>> /\ x[2].label = 10 /\ x[2].rd = Rd0)
+   {Mp("evpn", TRUE, Nh4, <<e>>) : e \in EvpnRoutes(0)}
+   \cup {Mp("evpn", FALSE, <<>>, <<e>>) : e \in {x \in EvpnRoutes(0) : x[1] \in {3, 4}}}
+   \cup {Mp("evpn", TRUE, Nh4, <<a, b>>) : a, b \in {x \in EvpnRoutes(0) : (x[1] = 1 /\ x[2].esi = Zeros(10) /\ x[2].tag = <<0, 100>> /\ x[2].label = 10 /\ x[2].rd = Rd0)
                                                     \/ (x[1] = 2 /\ x[2].esi = Zeros(10) /\ x[2].tag = <<0, 108>> /\ x[2].labels = <<16>>)
                                                     \/ (x[1] = 3 /\ x[2].rd = Rd0 /\ x[2].tag = <<0, 100>>)
                                                     \/ (x[1] = 4 /\ x[2].esi = Zeros(10))}}
@@ -191,7 +191,7 @@ OpVals == {FsOp(o, 1, <<v>>) : o \in {"=", "<", ">", "<=", ">="}, v \in {0, 6, 2
           \cup {FsOp(o, 2, <<a, b>>) : o \in {"=", "<", ">", "<=", ">="}, a \in {1, 255}, b \in {0, 255}}
           \cup {FsOp(o, 4, <<a, 0, 0, b>>) : o \in {"=", ">="}, a \in {1, 127}, b \in {0, 255}}
 FsTypes == {3, 4, 5, 6, 7, 8, 10, 11}
-FsRules ==
+FsRules(lazy) ==
    {<<<<1, p>>>> : p \in {Pfx(l, <<10, 77, 203, 13>>) : l \in 0..32}} \cup {<<<<2, p>>>> : p \in {P4s[i] : i \in 1..5}}
    \cup {<<<<1, P4s[4]>>, <<2, P4s[3]>>>>}
    \cup {<<<<t, <<o>>>>>> : t \in FsTypes, o \in OpVals}
@@ -200,8 +200,8 @@ FsRules ==
    \cup {<<<<5, [i \in 1..n |-> FsOp("=", 2, <<1, i>>)]>>>> : n \in {79, 80, 100}}
    \cup {<<<<1, P4s[4]>>, <<3, <<FsOp("=", 1, <<6>>)>>>>, <<5, <<FsOp("=", 2, <<31, 144>>), FsOp("=", 1, <<80>>)>>>>, <<11, <<FsOp("=", 1, <<46>>)>>>>>>}
 FsPool ==
-   {Mp("fs", TRUE, nh, <<r>>) : nh \in {<<>>}, r \in FsRules}
-   \cup {Mp("fs", FALSE, <<>>, <<r>>) : r \in FsRules}
+   {Mp("fs", TRUE, nh, <<r>>) : nh \in {<<>>}, r \in FsRules(0)}
+   \cup {Mp("fs", FALSE, <<>>, <<r>>) : r \in FsRules(0)}
    \cup {Mp("fs", TRUE, <<>>, <<a, b>>) : a, b \in {<<<<1, P4s[4]>>>>, <<<<2, P4s[1]>>>>, <<<<3, <<FsOp("=", 1, <<6>>)>>>>>>, <<<<5, <<FsOp(">=", 2, <<1, 0>>), FsOp("<", 1, <<255>>)>>>>>>}}
 MpPool(fam) ==
    CASE fam = "ipv6" -> Ipv6Pool [] fam \in {"lu4", "lu6"} -> LuPool(fam) [] fam \in {"vpn4", "vpn6"} -> VpnPool(fam)
